@@ -4,6 +4,7 @@ include/hazard_pointer.h + src/hazard_pointer.c with coq/Hazard.v + monitors.
 Harness rt/h_hazard.c (the .c file is #included there, so the static
 binary_search is exercised directly in the differential mode K = 0)."""
 import itertools
+import os
 import random
 
 from vf import core
@@ -354,7 +355,41 @@ def run(ctx):
         if not ok or ctx.failures:
             search(ctx, exe)
     client_layer(ctx)
+    tso_layer(ctx)
     core.finish(ctx, extra_assumptions=ASSUME)
+
+
+TSO_THEOREMS = ["hp_tso_safe", "hp_tso_no_use_after_free", "hp_tso_validated_visible", "hp_tso_retired_unlinked",
+                "hp_tso_shared_pointer_never_buffered", "hp_tso_scan_sees", "hp_tso_unfenced_refuted",
+                "hp_tso_sc_refines_step", "hp_tso_sc_refines", "hp_tso_fence_invisible_under_sc", "hp_tso_sc_safe"]
+
+
+def tso_layer(ctx):
+    """'publish then full fence before the validating re-read' on x86-TSO: coq/HazardTSO.v is a store-buffer machine of
+    hazard_pointer_using + the caller's re-read against unlink / retire / scan / free, with the fence as a parameter:
+    safe with it (hp_tso_safe), an 11-step use-after-free without it (hp_tso_unfenced_refuted), and invisible to any
+    sequentially consistent model (hp_tso_fence_invisible_under_sc).  Tie to the source: the shape check below (the
+    parameter `fenced = true` is what the source says) and the store-buffer runs of the real code (C13.tso_pass)."""
+    import re
+    core.coq_property(ctx, "Properties_C14_tso.v", TSO_THEOREMS)
+    try:
+        hp = open(os.path.join(core.REPO, "include", "hazard_pointer.h")).read()
+        ms = open(os.path.join(core.REPO, "include", "machine_specific.h")).read()
+    except OSError as ex:
+        ctx.oblige("source-shape:hazard_pointer_using", False, str(ex))
+        return
+    strip = lambda t: re.sub(r"//[^\n]*|/\*.*?\*/", "", t, flags=re.S)
+    m = re.search(r"static inline void hazard_pointer_using\s*\([^)]*\)\s*\{(.*?)\n\}", hp, re.S)
+    body = [x.strip() for x in strip(m.group(1)).split(";") if x.strip()] if m else []
+    body = [x for x in body if not x.startswith("assert")]
+    ok_using = body == ["hptr->hazard_pointers[n] = node", "store_load_barrier()"]
+    ctx.oblige("source-shape:hazard_pointer_using = slot store; store_load_barrier()", ok_using,
+               "body found: %r (HazardTSO.v models A2 = the slot store followed by A3 = a full fence)" % body)
+    m = re.search(r"static inline void store_load_barrier\s*\(\)\s*\{(.*?)\n\}", ms, re.S)
+    fb = strip(m.group(1)) if m else ""
+    x64 = re.search(r"defined\(__x86_64__\)\s*\n\s*__asm__ __volatile__\(\"(lock; addq \$0,0\(%%rsp\)|mfence)\"\s*:\s*:\s*:\s*\"memory\"\)", fb)
+    ctx.oblige("source-shape:store_load_barrier is a locked instruction / mfence with a memory clobber", bool(x64),
+               "x86_64 branch of store_load_barrier: %r" % fb[:300])
 
 
 CLIENT_THEOREMS = ["mpmc_no_deref_reclaimed", "mpmc_hp_safe", "mpmc_aba_safe"]
